@@ -54,6 +54,14 @@ namespace web {
 class JsonLexer {
  public:
   /**
+   * @brief The maximum number of nested arrays / objects the lexer accepts.
+   *
+   * Documents that are nested deeper than this are rejected with an error,
+   * rather than overflowing the stack.
+   */
+  static const unsigned int MAX_DEPTH = 256;
+
+  /**
    * @brief Parse a string containing JSON data.
    * @param input the input string
    * @param handler the JsonParserInterface to pass tokens to.
